@@ -572,9 +572,43 @@ class Executor(Evaluator):
         if attr == "fill" and isinstance(base, Arr):
             self.store(st, base, args[0])
             return None
+        if attr in ("min", "max") and not args:
+            return self.reduce_minmax(st, base, attr)
         if attr == "reshape":
-            raise Unsupported("reshape")
+            return self.reshape_rows(st, base, args)
         raise Unsupported(f"array method {attr}")
+
+    def flat_index(self, r, n, c):
+        """row-major position of cell (r, c) in a table with n columns. Symbolically an UNINTERPRETED function shared by the executor
+        (reshape) and the contract language (flat): what is proved holds for every indexing function, in particular r * n + c."""
+        r, n, c = as_int(r), as_int(n), as_int(c)
+        if all(isinstance(x, int) for x in (r, n, c)):
+            return r * n + c
+        F = self.ufuns.get("flat")
+        if F is None:
+            F = z3.Function("flat", INT, INT, INT, INT)
+            self.ufuns["flat"] = F
+        return F(zint(r), zint(n), zint(c))
+
+    def reshape_rows(self, st, base, args):
+        """a.reshape((-1, n)) of a fresh 1-D copy: a fresh 2-D array with cell (r, c) = a[r * n + c]; NumPy raises unless n divides len(a)"""
+        shp = args[0] if len(args) == 1 and isinstance(args[0], tuple) else tuple(args)
+        if not (isinstance(base, Arr) and base.ndim == 1 and base.is_whole() and base.obj.name == "copy" and len(shp) == 2 and isinstance(shp[0], int) and shp[0] == -1):
+            raise Unsupported("reshape other than <fresh copy>.reshape((-1, n))")
+        n = as_int(shp[1])
+        m = base.shape[0]
+        src = self.to_aexpr(st, base)
+        q = z3.Int(fresh_name("q"))
+        self.oblige(st, "div", "reshape.columns", n >= 1 if is_sym(n) else bool(n >= 1), tags={"C16"})
+        self.oblige(st, "bounds", "reshape.divisible", z3.Exists([q], z3.And(q >= 0, q * zint(n) == zint(m))), tags={"C16"})
+        rows = fresh_int("rows")
+        st.pc.append(z3.And(rows >= 0, rows * zint(n) == zint(m)))
+        obj = ArrObj("reshaped", base.dtype, [rows, n])
+        r, c = z3.Int(fresh_name("r")), z3.Int(fresh_name("c"))
+        term = obj.fresh_term()
+        st.heap[obj.id] = term
+        st.pc.append(z3.ForAll([r, c], z3.Implies(z3.And(r >= 0, r < rows, c >= 0, c < zint(n)), z3.Select(term, r, c) == zint(src.fn([self.flat_index(r, n, c)]))), patterns=[z3.Select(term, r, c)]))
+        return Arr(obj)
 
     def resolve_callee(self, node, st):
         f = node.func
@@ -956,6 +990,14 @@ class Executor(Evaluator):
                 self._trig_added = True
                 self.axioms.append(TRIG_AXIOM[0])
             return self.ufuns["trig"](x)
+        if name == "flat":
+            return self.flat_index(*[self.eval(x, st) for x in a[:3]])
+        if name in ("rowsrc", "rowdst"):
+            # the row maps of the most recent boolean row filter A[mask] executed on this path (ghost access for loop invariants)
+            fg = st.env.get("__rowmap__")
+            if fg is None:
+                raise VerifError(f"{name}: no row filter executed on this path")
+            return fg[0 if name == "rowsrc" else 1](zint(as_int(self.eval(a[0], st))))
         if name == "rowidx":
             v = self.eval(a[0], st)
             if isinstance(v, Arr) and v.axes and v.axes[0][0] == "fix":
